@@ -605,6 +605,14 @@ Proof.
     unfold res_of. rewrite Hl, Hb. apply (build_update_idem o u r Hb).
 Qed.
 
+(* recovery of an event that was logged but not yet applied does what Apply would have done *)
+Theorem reapply_completes_apply_proved st e :
+  valid_event st e = true -> reapply st e = apply st e.
+Proof.
+  intros V. pose proof (valid_event_facts st e V) as F.
+  rewrite (apply_valid st e F). unfold reapply. rewrite (proj2 (valid_apply_items st e F)), Hover. reflexivity.
+Qed.
+
 (* histories in which any prefix may be followed by re-applies of its last event *)
 Lemma run_ops_applied ops : forall st last,
   (forall e, last = Some e -> reapply st e = (st, 0)) ->
@@ -683,3 +691,71 @@ Proof.
 Qed.
 
 End Corollaries.
+
+(* ---------- link: the oracle accepts every run of the model on a valid history ---------- *)
+
+Section Link.
+Hypothesis Hmask : rec_low_mask = N.ones rec_partition_bits.
+Hypothesis Hbits : rec_partition_bits <= 16.
+Hypothesis Hover : rec_reapply_overwrites = true.
+
+Lemma orec_eqb_refl (a : option rec) : option_eqb rec_eqb a a = true.
+Proof. apply orec_eqb_eq. reflexivity. Qed.
+
+Definition qs_bounded (qs : list (N * N)) := Forall (fun q => fst q < bound64 /\ snd q < bound64) qs.
+
+Lemma satisfies_obs_all st hr qs rest :
+  spec_ok st hr -> qs_bounded qs ->
+  satisfies_from hr (obs_all st qs ++ rest) = satisfies_from hr rest.
+Proof.
+  intros I. induction qs as [|[ws id] qs IH]; intros B; [reflexivity|].
+  inversion B as [|x xs [Hw Hi] B']; subst. cbn in Hw, Hi. cbn [obs_all map app satisfies_from fst snd].
+  rewrite (I ws id Hw Hi), orec_eqb_refl. cbn [andb]. apply IH; exact B'.
+Qed.
+
+Lemma valid_in_domain st hr e : spec_ok st hr -> valid_event st e = true -> in_domain hr e = true.
+Proof.
+  intros I V. pose proof (valid_event_facts st e V) as F.
+  unfold in_domain. rewrite !andb_true_iff, !forallb_forall. repeat split.
+  - apply NoDup_nodupb. exact (ef_nodup _ _ F).
+  - intros c HC. rewrite <- (I (e_ws e) (c_id c)).
+    + rewrite (ef_new _ _ F c HC). reflexivity.
+    + exact (ef_ws _ _ F).
+    + apply (ef_id_lt st e _ F). unfold event_ids. apply in_or_app; left. apply in_map; exact HC.
+  - intros u HU. rewrite <- (I (e_ws e) (u_id u)).
+    + destruct (ef_upd _ _ F u HU) as [o [r [Hl [Hb He]]]]. rewrite Hl.
+      unfold eff_origin in He. destruct (rec_empty (u_origin u)) eqn:EE; [reflexivity|].
+      cbn [orb]. inversion He; subst o. apply orec_eqb_refl.
+    + exact (ef_ws _ _ F).
+    + apply (ef_id_lt st e _ F). unfold event_ids. apply in_or_app; right. apply in_map; exact HU.
+Qed.
+
+Lemma satisfies_model_trace_from ops qs : forall st last hr,
+  spec_ok st hr -> qs_bounded qs ->
+  (forall e, last = Some e -> reapply st e = (st, 0)) ->
+  valid_ops st last ops = true ->
+  satisfies_from hr (model_trace st last ops qs) = true.
+Proof.
+  induction ops as [|[e|] ops IH]; intros st last hr I B HL V; [reflexivity| |].
+  - cbn in V. apply andb_true_iff in V as [V1 V2]. cbn [model_trace].
+    pose proof (valid_event_facts st e V1) as F.
+    rewrite (apply_valid Hmask Hbits st e F) in *. cbn [fst snd] in *. cbn [satisfies_from].
+    rewrite N.eqb_refl, (valid_in_domain st hr e I V1).
+    assert (spec_ok (put_all st (e_ws e) (ev_items st e)) (e :: hr)) as I'.
+    { pose proof (step_spec Hmask Hbits st hr e I V1) as S. rewrite (apply_valid Hmask Hbits st e F) in S. exact S. }
+    rewrite (satisfies_obs_all _ _ _ _ I' B).
+    apply IH; auto. intros e' E. inversion E; subst e'.
+    pose proof (reapply_idem_proved Hmask Hbits Hover st e V1) as R.
+    rewrite (apply_valid Hmask Hbits st e F) in R. exact R.
+  - cbn in V. destruct last as [e|]; [|discriminate]. cbn [model_trace].
+    rewrite (HL e eq_refl) in *. cbn [fst snd] in *. cbn [satisfies_from].
+    rewrite (satisfies_obs_all _ _ _ _ I B). apply IH; auto.
+Qed.
+
+Theorem satisfies_model_trace_proved ops qs :
+  valid_ops [] None ops = true -> qs_bounded qs -> satisfies (model_trace [] None ops qs) = true.
+Proof.
+  intros V B. apply satisfies_model_trace_from; auto; [apply spec_ok_init | discriminate].
+Qed.
+
+End Link.
